@@ -8,6 +8,7 @@ for p in $(python3 -c "import json;print(' '.join(c['property_id'] for c in json
   v=$(echo "$out" | grep -c "^VIOLATION"); h=$(echo "$out" | grep -c "HARNESS")
   echo "$p violations=$v harness=$h :: $(echo "$out" | tail -1 | cut -c1-140)"
   [ $v -gt 0 -o $h -gt 0 ] && fail=1
+  echo "$out" | tail -1 | grep -q "quick seed=" || { echo "  $p: NO SUMMARY LINE (crash?)"; fail=1; }
 done
 python3-vt tools/validate.py || fail=1
 exit $fail
